@@ -87,7 +87,9 @@ class Model(HoloPyObject):
                         par, parameters_to_tie[0])
                 raise ValueError(msg)
             indices.append(self._parameter_names.index(par))
-        indices.sort()
+        indices = sorted(set(indices))
+        if len(indices) == 0:
+            return
         if new_name is not None:
             other_names = [name for index, name in
                            enumerate(self._parameter_names)
